@@ -53,11 +53,17 @@ type elasticBulkDec struct {
 
 func (e *elasticBulkDec) Decode() error {
 	scanner := bufio.NewScanner(e.ctx.bodyReader)
+	// a document may be longer than bufio's default 64 KiB token limit
+	scanner.Buffer(make([]byte, 0, 64*1024), 16*1024*1024)
 	for scanner.Scan() {
 		err := e.decodeLine(scanner.Bytes())
 		if err != nil {
 			return customErrors.NewUnmarshalError(err)
 		}
+	}
+	// a read error or an over-long line must not end the request as if the body were complete
+	if err := scanner.Err(); err != nil {
+		return customErrors.NewUnmarshalError(err)
 	}
 	return nil
 }
